@@ -6,11 +6,12 @@ From RtoscV Require Import Save.TopoModel Save.SaveModel Save.SaveProofs.
 Import ListNotations.
 Local Open Scope Z_scope.
 
-(* A parameter appears in the savefile exactly when the walk reaches it and its
-   current value differs from the default the state selects for it. *)
+(* A parameter appears in the savefile exactly when it declares a default, the
+   walk reaches it and its current value differs from the default the state
+   selects for it. *)
 Theorem C12_minimal : forall a st l,
   In l (save_lines a st) <->
-  exists i, (i < length a)%nat /\ live a st i = true /\
+  exists i, (i < length a)%nat /\ p_nodef (port_at a i) = false /\ live a st i = true /\
             same_value (val_at st i) (default_of a st i) = false /\ l = the_line a st i.
 Proof. exact save_lines_spec. Qed.
 
